@@ -15,9 +15,14 @@
         status 1 = accepted, 0 = "OT extension check failed", -1 = I/O error;
         corr = 1 iff the correlation holds for the receiver's original choices
         on the sender's outputs (only when accepted, else 0).
+   (2 n (choice bits) b0 b1 seed)             the chi stream (OT/ChiStream.v)
+      the coefficients are NOT handed over: the model expands the seed itself
+      (AES-128 key schedule of Label.Bytes(seed), CTR blocks 0 .. n+255, zero IV)
+      and runs the receiver's block loop on the in-place chi array.
+      output: (x)  = the label x the real IKNPReceiver.Receive(b, res, true) sends.
    All labels are in polynomial order (D0 + 2^64*D1). *)
 From Coq Require Import ZArith NArith List Bool Arith.
-From Mpc Require Import Gen.Consts Base.Sx OT.Gf128 OT.Kos.
+From Mpc Require Import Gen.Consts Base.Sx Base.Aes OT.Gf128 OT.Kos OT.ChiStream.
 Import ListNotations.
 
 (* the first [cnt] bytes of a little-endian number *)
@@ -86,10 +91,33 @@ Definition run_kos (inp : sx) : sx :=
        ofLN res; ofnat pos';
        SL (map one (getL (nthx 10 inp))) ].
 
+(* Label.Bytes: D0 big-endian then D1 big-endian *)
+Definition key_bytes (s : N) : list N :=
+  be_bytes 8 (N.land s (N.ones 64)) ++ be_bytes 8 (N.land (N.shiftr s 64) (N.ones 64)).
+
+(* keystream blocks 0 .. m-1 of newPrg(seed): AES_seed(counter c), counter big-endian from the zero IV *)
+Definition aes_ctr_block (rks : list (list N)) (c : nat) : list N :=
+  aes_encrypt_rk rks (be_bytes 16 (N.of_nat c)).
+Definition aes_ctr_blocks (seed : N) (m : nat) : list (list N) :=
+  let rks := aes_schedule (key_bytes seed) in map (aes_ctr_block rks) (seq 0 m).
+
+Definition run_chi (inp : sx) : sx :=
+  let n := getnat (nthx 1 inp) in
+  let b := getLB (nthx 2 inp) in
+  let b0 := getN (nthx 3 inp) in
+  let b1 := getN (nthx 4 inp) in
+  let seed := getN (nthx 5 inp) in
+  let blocks := aes_ctr_blocks seed (n + checkRows) in     (* memo of the block function *)
+  let blk := fun c => nth c blocks [] in
+  if negb (Nat.eqb n (length b)) then sx_err 2 else
+  let '(x, _) := receiver_x blk 0 chi_array0 b (bcv_of b0 b1) in
+  SL [ofN x].
+
 Definition run_c15 (inp : sx) : sx :=
   match getZ (nthx 0 inp) with
   | 0%Z => run_mul (tl (getL inp))
   | 1%Z => run_kos inp
+  | 2%Z => run_chi inp
   | _ => sx_err 1
   end.
 
